@@ -16,9 +16,10 @@ pub enum Class {
     W4Repeat,
     W5Enum,
     W6Corpus,
+    W7CorpusMutant,
 }
 
-pub const CLASSES: [Class; 6] = [Class::W1MultiMisuse, Class::W2MultiCounterpart, Class::W3Flatten, Class::W4Repeat, Class::W5Enum, Class::W6Corpus];
+pub const CLASSES: [Class; 7] = [Class::W1MultiMisuse, Class::W2MultiCounterpart, Class::W3Flatten, Class::W4Repeat, Class::W5Enum, Class::W6Corpus, Class::W7CorpusMutant];
 
 impl Class {
     pub fn tag(self) -> &'static str {
@@ -29,6 +30,7 @@ impl Class {
             Class::W4Repeat => "W4",
             Class::W5Enum => "W5",
             Class::W6Corpus => "W6",
+            Class::W7CorpusMutant => "W7",
         }
     }
 }
@@ -271,7 +273,10 @@ pub fn gen_struct(rng: &mut Rng, class: Class) -> Item {
         2 => Shape::Unit,
         _ => Shape::Named,
     };
+    // 1 in 8 items is "big": many counterparts, many members
+    let big = rng.chance(1, 8);
     let n_cp = match class {
+        _ if big => rng.range(4, 7),
         Class::W2MultiCounterpart => rng.range(2, 4),
         _ => rng.range(1, 3),
     };
@@ -379,6 +384,16 @@ pub fn gen_struct(rng: &mut Rng, class: Class) -> Item {
             let g = *rng.pick(&groups);
             bodies.push(format!("ghosts({}@ghost_in_child: {{ 7 }}, top_ghost: {{ 8 }})", g));
         }
+        if rng.chance(1, 4) {
+            // children that are populated by ghosts only (no #[child] field names them)
+            let k = rng.range(2, 4);
+            let only = pick_distinct(rng, &["ga", "gb", "gc", "gd"], k);
+            let tys: Vec<String> = only.iter().map(|g| format!("{}: G{}", g, g.to_uppercase())).collect();
+            let gh: Vec<String> = only.iter().enumerate().map(|(i, g)| format!("{}@v{}: {{ {} }}", g, i, i)).collect();
+            let ded = if rng.chance(1, 3) { format!("{}| ", rng.pick(&cps)) } else { String::new() };
+            bodies.push(format!("child_parents({}{})", ded, tys.join(", ")));
+            bodies.push(format!("{}({}{})", rng.pick(&["ghosts", "ghosts_owned", "ghosts_ref"]), ded, gh.join(", ")));
+        }
     }
 
     if rng.chance(1, 8) {
@@ -389,7 +404,7 @@ pub fn gen_struct(rng: &mut Rng, class: Class) -> Item {
 
     // members
     if item.shape != Shape::Unit {
-        let n = rng.range(1, 7);
+        let n = if big { rng.range(7, 10) } else { rng.range(1, 7) };
         let names = pick_distinct(rng, &FIELD_NAMES, n);
         let named_cp = item.shape == Shape::Named;
         let mut repeat_open = false;
@@ -775,8 +790,234 @@ fn first_counterpart(item: &Item) -> Option<String> {
     None
 }
 
+// ---------------------------------------------------------------- W7: structural mutation of corpus items
+
+use proc_macro2::{Delimiter, Group, Ident, TokenStream, TokenTree};
+
+const TRAIT_INSTRS: [&str; 24] = [
+    "map", "from", "into", "map_owned", "map_ref", "from_owned", "from_ref", "owned_into", "ref_into", "into_existing", "owned_into_existing", "ref_into_existing", "try_map", "try_from", "try_into", "try_map_owned", "try_map_ref", "try_from_owned", "try_from_ref", "owned_try_into", "ref_try_into", "try_into_existing", "owned_try_into_existing",
+    "ref_try_into_existing",
+];
+
+fn contains_ident(ts: &TokenStream, name: &str) -> bool {
+    ts.clone().into_iter().any(|t| match t {
+        TokenTree::Ident(i) => i == name,
+        TokenTree::Group(g) => contains_ident(&g.stream(), name),
+        _ => false,
+    })
+}
+
+fn rename_ident(ts: TokenStream, from: &str, to: &TokenStream) -> TokenStream {
+    let mut out = TokenStream::new();
+    for t in ts {
+        match t {
+            TokenTree::Ident(i) if i == from => out.extend(to.clone()),
+            TokenTree::Group(g) => {
+                let mut ng = Group::new(g.delimiter(), rename_ident(g.stream(), from, to));
+                ng.set_span(g.span());
+                out.extend([TokenTree::Group(ng)]);
+            },
+            t => out.extend([t]),
+        }
+    }
+    out
+}
+
+/// single-identifier counterpart types named by the type-level trait instructions
+fn single_ident_counterparts(item: &Item) -> Vec<String> {
+    fn scan(ts: TokenStream, out: &mut Vec<String>) {
+        let v: Vec<TokenTree> = ts.into_iter().collect();
+        for i in 0..v.len() {
+            if let (TokenTree::Ident(id), Some(TokenTree::Group(g))) = (&v[i], v.get(i + 1)) {
+                if g.delimiter() == Delimiter::Parenthesis {
+                    let name = id.to_string();
+                    if name == "o2o" {
+                        scan(g.stream(), out);
+                    } else if TRAIT_INSTRS.contains(&name.as_str()) {
+                        let inner: Vec<TokenTree> = g.stream().into_iter().collect();
+                        if let Some(TokenTree::Ident(c)) = inner.first() {
+                            let single = match inner.get(1) {
+                                None => true,
+                                Some(TokenTree::Punct(p)) => p.as_char() == '|' || p.as_char() == ',',
+                                Some(TokenTree::Ident(a)) => a == "as",
+                                _ => false,
+                            };
+                            if single && !out.contains(&c.to_string()) {
+                                out.push(c.to_string());
+                            }
+                        }
+                    }
+                }
+            }
+            if let TokenTree::Group(g) = &v[i] {
+                if g.delimiter() == Delimiter::Bracket {
+                    scan(g.stream(), out);
+                }
+            }
+        }
+    }
+    let mut out = Vec::new();
+    for a in &item.type_attrs {
+        if let Ok(ts) = a.parse::<TokenStream>() {
+            scan(ts, &mut out);
+        }
+    }
+    out
+}
+
+/// Every attribute (at any depth: type, member, variant field) that mentions `c` is followed
+/// by a copy of itself in which `c` is replaced by `c2`; inside `#[o2o(a(..), b(..))]` lists
+/// only the elements that mention `c` are copied.
+fn clone_counterpart(ts: TokenStream, c: &str, c2: &TokenStream) -> TokenStream {
+    let v: Vec<TokenTree> = ts.into_iter().collect();
+    let mut out = TokenStream::new();
+    let mut i = 0;
+    while i < v.len() {
+        match (&v[i], v.get(i + 1)) {
+            (TokenTree::Punct(p), Some(TokenTree::Group(g))) if p.as_char() == '#' && g.delimiter() == Delimiter::Bracket => {
+                let inner: Vec<TokenTree> = g.stream().into_iter().collect();
+                let is_list = matches!((inner.first(), inner.get(1)), (Some(TokenTree::Ident(n)), Some(TokenTree::Group(l))) if n == "o2o" && l.delimiter() == Delimiter::Parenthesis && inner.len() == 2);
+                if is_list && contains_ident(&g.stream(), c) {
+                    let TokenTree::Group(l) = &inner[1] else { unreachable!() };
+                    // split on top-level commas
+                    let mut elems: Vec<TokenStream> = vec![TokenStream::new()];
+                    for t in l.stream() {
+                        match &t {
+                            TokenTree::Punct(p) if p.as_char() == ',' => elems.push(TokenStream::new()),
+                            _ => elems.last_mut().unwrap().extend([t]),
+                        }
+                    }
+                    let mut list = TokenStream::new();
+                    let mut first = true;
+                    for e in elems {
+                        if e.is_empty() {
+                            continue;
+                        }
+                        let mut push = |x: TokenStream, list: &mut TokenStream| {
+                            if !first {
+                                list.extend("," .parse::<TokenStream>().unwrap());
+                            }
+                            first = false;
+                            list.extend(x);
+                        };
+                        push(e.clone(), &mut list);
+                        if contains_ident(&e, c) {
+                            push(rename_ident(e, c, c2), &mut list);
+                        }
+                    }
+                    let body: TokenStream = [inner[0].clone(), TokenTree::Group(Group::new(Delimiter::Parenthesis, list))].into_iter().collect();
+                    out.extend([v[i].clone(), TokenTree::Group(Group::new(Delimiter::Bracket, body))]);
+                } else {
+                    out.extend([v[i].clone(), v[i + 1].clone()]);
+                    if contains_ident(&g.stream(), c) {
+                        out.extend([v[i].clone(), TokenTree::Group(Group::new(Delimiter::Bracket, rename_ident(g.stream(), c, c2)))]);
+                    }
+                }
+                i += 2;
+            },
+            (TokenTree::Group(g), _) => {
+                out.extend([TokenTree::Group(Group::new(g.delimiter(), clone_counterpart(g.stream(), c, c2)))]);
+                i += 1;
+            },
+            (t, _) => {
+                out.extend([t.clone()]);
+                i += 1;
+            },
+        }
+    }
+    out
+}
+
+fn reparse(text: &str, origin: &str) -> Option<Item> {
+    let di: syn::DeriveInput = syn::parse_str(text).ok()?;
+    crate::item::from_derive_input(&di, origin)
+}
+
+pub fn mutate_corpus_item(rng: &mut Rng, base: &Item) -> Item {
+    let mut item = base.clone();
+    let mut ops: Vec<String> = Vec::new();
+    let n_ops = rng.range(1, 3);
+    for _ in 0..n_ops {
+        match rng.below(5) {
+            0 | 1 => {
+                // more counterparts: clone everything dedicated to one of them, 1..3 times
+                let cps = single_ident_counterparts(&item);
+                if cps.is_empty() {
+                    continue;
+                }
+                let c = rng.pick(&cps).clone();
+                let times = rng.range(1, 3);
+                for k in 0..times {
+                    let c2s = match rng.below(4) {
+                        0 => format!("{}{}<'x, &'y str>", c, k + 2),
+                        1 => format!("other::{}{}", c, k + 2),
+                        _ => format!("{}{}", c, k + 2),
+                    };
+                    let Ok(c2) = c2s.parse::<TokenStream>() else { continue };
+                    let Ok(ts) = item.render().parse::<TokenStream>() else { continue };
+                    // the deriving type's own name must stay
+                    if c == item.name {
+                        continue;
+                    }
+                    let text = clone_counterpart(ts, &c, &c2).to_string();
+                    if let Some(it) = reparse(&text, &item.origin) {
+                        item = it;
+                        ops.push(format!("clone-counterpart({}->{})", c, c2s));
+                    }
+                }
+            },
+            2 => {
+                // more members: copies of members (with their instructions) under new names
+                let n = item.members.len();
+                if n == 0 {
+                    continue;
+                }
+                let times = rng.range(1, 4);
+                for k in 0..times {
+                    let mi = rng.below(item.members.len() as u64) as usize;
+                    let mut m = item.members[mi].clone();
+                    if let Ok(ts) = m.decl.parse::<TokenStream>() {
+                        let mut v: Vec<TokenTree> = ts.into_iter().collect();
+                        // first identifier that is a field / variant name
+                        let named = item.is_enum || item.shape == Shape::Named;
+                        if named {
+                            if let Some(pos) = v.iter().position(|t| matches!(t, TokenTree::Ident(i) if i != "pub" && i != "crate")) {
+                                if let TokenTree::Ident(id) = &v[pos] {
+                                    v[pos] = TokenTree::Ident(Ident::new(&format!("{}_{}", id, k + 2), id.span()));
+                                }
+                            }
+                        }
+                        m.decl = v.into_iter().collect::<TokenStream>().to_string();
+                    }
+                    let at = rng.below(item.members.len() as u64 + 1) as usize;
+                    item.members.insert(at, m);
+                }
+                ops.push(format!("copy-members(x{})", times));
+            },
+            3 => {
+                rng.shuffle(&mut item.members);
+                ops.push("shuffle-members".into());
+            },
+            _ => {
+                rng.shuffle(&mut item.type_attrs);
+                ops.push("shuffle-type-attrs".into());
+            },
+        }
+    }
+    item.origin = format!("W7[{}]<-{}", ops.join(","), base.origin);
+    item
+}
+
 pub fn generate(rng: &mut Rng, corpus: &Corpus, class: Class) -> Item {
     match class {
+        Class::W7CorpusMutant => {
+            if corpus.items.is_empty() {
+                gen_struct(rng, Class::W2MultiCounterpart)
+            } else {
+                let base = corpus.items[rng.below(corpus.items.len() as u64) as usize].clone();
+                mutate_corpus_item(rng, &base)
+            }
+        },
         Class::W6Corpus => {
             if corpus.items.is_empty() {
                 gen_struct(rng, Class::W2MultiCounterpart)
@@ -788,7 +1029,11 @@ pub fn generate(rng: &mut Rng, corpus: &Corpus, class: Class) -> Item {
         Class::W1MultiMisuse => {
             let mut base = match rng.below(5) {
                 0 => gen_enum(rng, class),
-                1 | 2 if !corpus.items.is_empty() => corpus.items[rng.below(corpus.items.len() as u64) as usize].clone(),
+                1 if !corpus.items.is_empty() => corpus.items[rng.below(corpus.items.len() as u64) as usize].clone(),
+                2 if !corpus.items.is_empty() => {
+                    let b = corpus.items[rng.below(corpus.items.len() as u64) as usize].clone();
+                    mutate_corpus_item(rng, &b)
+                },
                 _ => gen_struct(rng, class),
             };
             let k = rng.range(2, 8);
